@@ -342,3 +342,39 @@ _GEN4 = ("Generic, in every anchored module: no loop body ends in an uncondition
          "default argument constructs a shared object.")
 for _p in CHECKS:
     CHECKS[_p]["text"] = CHECKS[_p]["text"] + " " + _GEN4
+
+
+# Survey 2, the last hunts, round 5 (DESIGN.md section 11, last table).
+ADDED5 = {
+    "C01": "Extras of an unregistered toplevel extension keep the given order; allow_custom travels with interoperability; "
+           "include_optional_defaults reaches nested objects; the version detector tolerates what the writer omits.",
+    "C02": "Base64 validity tests are strict; presence tests of string / number slots by membership; the strict refusal inside "
+           "container cleaners and the selector syntax agreement run as necessary conditions.",
+    "C03": "No raising co-constraint beyond the specification table; the encoder clauses of C01.",
+    "C04": "The unregistered-extension escape needs an extension point; the switch read from **kwargs under its own name with a "
+           "strict default; truth table of the reference flag; every value goes through its cleaner.",
+    "C05": "Changes and a modified time given through custom_properties are applied and checked; the detected version is handed "
+           "back along the whole chain; every versioned class has its version's marker base.",
+    "C06": "Renamed-key stores of cleaning steps are collision-tested with exact value agreement; the contributing lists are never "
+           "written (plain aliasing followed); the UTC clauses of C15.",
+    "C07": "compress_markings keeps every (marking, selector) pair.",
+    "C09": "The CIDR byte arithmetic tabulated over every (address size, prefix) by constant folding; containment helpers only "
+           "between nodes of the same connective.",
+    "C10": "Path text cut by a quote-aware tokeniser; every literal token of both grammars becomes a constant; string-only "
+           "operators; strict base64; no ordering of printed constants.",
+    "C11": "The memory query filters everything the store holds.",
+    "C12": "Datetime filter values compared as instants; no answer outside the operator table; the memory query scans everything.",
+    "C14": "Version tests recognised on the AST (a membership test of the string 'spec_version' is none); what is parsed under a "
+           "named version is what is stored; every versioned class has its version's marker base.",
+    "C15": "The midnight of a plain date is UTC; TimestampProperty parses the value as given.",
+    "C16": "Circular-reference markers are released on every normal exit (pairing, with the correlated guard).",
+    "C17": "Content keys read by the filesystem sink and file reader under presence tests; content values joined into a path are "
+           "single file names; the registry is never indexed by a parameter.",
+    "C18": "Members answer filtered and newest (clauses of C12 / C11); each source given to Environment() is attached on its own "
+           "argument.",
+    "C19": "Registration and constructor classify reference names alike (automata); the registered property table is a copy.",
+    "C20": "assert is not behaviour; table lookups in returns; results keep their kind (5.0 is not a value of the scale).",
+}
+_GEN5 = "A container defined in a class body is mutated through self only after a dominating fresh instance copy."
+for _p in CHECKS:
+    CHECKS[_p]["text"] = (CHECKS[_p]["text"] + " " + ADDED5.get(_p, "")).strip() + " " + _GEN5
